@@ -795,6 +795,19 @@ func executeC11Once(scn *Scenario) *RunResult {
 		}
 		refsB, _ := soloRefs(twinB, c.Tasks)
 		for k, r := range refs {
+			if soloCapped(refsB[k].out) != soloCapped(r.out) {
+				// one of the two reference executions ran into the absolute
+				// budget of a solo run and the other stayed just below it (the
+				// cost of a call is not part of its answer, and with goroutines
+				// inside the library it depends on the ambient schedule): the
+				// unit has no reference, it is excluded
+				r.out = r.out + "ABORT:solo-cap"
+				if !soloCapped(r.out) {
+					panic("soloCapped does not recognise its own marker")
+				}
+				refs[k] = r
+				continue
+			}
 			if refsB[k].out != r.out {
 				res.Premise = fmt.Sprintf("twins disagree on %s: %q vs %q", k, clip(r.out, 80), clip(refsB[k].out, 80))
 				return false
@@ -1109,6 +1122,9 @@ func executeC11Once(scn *Scenario) *RunResult {
 				continue
 			}
 			out, _ := runSoloCapped(subject, u)
+			if soloCapped(out) {
+				continue // over the absolute budget of a solo run this time: says nothing
+			}
 			if out != ref.out {
 				viol = &Violation{Prop: "C11", Oracle: "lasting-corruption", Where: "unit=" + u.Kind,
 					Detail:   fmt.Sprintf("after the concurrent phase, %s alone on the shared instance differs from the twin", u.short()),
